@@ -246,9 +246,10 @@ func (k Keeper) CalculatePrice(
 		), nil
 	}
 
-	// If the total power is less than price quorum percentage of the total bonded token
-	// or less than half of total have available price status, it will not be calculated.
-	if totalPower.LT(powerQuorum) || availablePower.MulRaw(2).LT(totalPower) {
+	// If the total power is less than price quorum percentage of the total bonded token,
+	// no power has an available price status, or less than half of total have available
+	// price status, it will not be calculated.
+	if totalPower.LT(powerQuorum) || !availablePower.IsPositive() || availablePower.MulRaw(2).LT(totalPower) {
 		// else, it returns an price not ready price status.
 		return types.NewPrice(
 			types.PRICE_STATUS_NOT_READY,
